@@ -15,7 +15,8 @@ func init() {
 			"PackHandle{metaVal}→metaMu,{indexVal}→indexMu, SharedFile{…}→mu, Pool{…}→mu, ObjectLRU/BufferLRU{…}→mut) holds the mutex on every path (write mode for writes); " +
 			"(publish-by-reassign) slices and maps that are handed out as snapshots (ObjectStorage.packs, DotGit.objectList/packList) are only ever replaced as a whole, never appended to or indexed for writing in place; " +
 			"(lazy-init-on-read-path) every plain (non-atomic, non-sync) field of the shared storage structs that is assigned outside a constructor is in the guard table or in the reviewed exemption list, so a lazily " +
-			"initialised field cannot be added without a lock. Not decided: spurious failures or not-found answers under particular schedules; races through aliased snapshots' elements.",
+			"initialised field cannot be added without a lock; (lazy-init-blocks) every CompareAndSwap gate in the module is either the close-once idiom (negated, the losers return) or does not build receiver state in its body — " +
+			"a one-time build behind a positive gate would let the losers read the half-built state. Not decided: spurious failures or not-found answers under particular schedules; races through aliased snapshots' elements.",
 		Assumptions: []string{"sync.Mutex/RWMutex/Once/singleflight semantics", "constructors run before the value is shared"},
 		Run:         runC23,
 	})
@@ -156,6 +157,67 @@ func runC23(c *Ctx) {
 		}
 	}
 	c.Floor(r3, 15)
+
+	// lazy-init-blocks: a one-time build of shared state must make every concurrent caller wait for it (sync.Once.Do, or
+	// a build under the write lock). `if flag.CompareAndSwap(false, true) { build() }` does not: the callers that lose
+	// the race go on and read the half-built state. CompareAndSwap gates are inventoried: the "close once" idiom
+	// (`if !x.CompareAndSwap(false, true) { return … }`) is fine, a positive gate whose body calls a method of the same
+	// receiver that writes its fields is not.
+	const r4 = "lazy-init-blocks"
+	nCAS := 0
+	for _, fi := range p.Funcs() {
+		if fi.Decl.Body == nil || p.isTestFile(fi.Decl.Pos()) || !production(fi.Pkg) || fi.Decl.Recv == nil || len(fi.Decl.Recv.List) == 0 || len(fi.Decl.Recv.List[0].Names) == 0 {
+			continue
+		}
+		finfo := fi.Pkg.TypesInfo
+		recv := finfo.Defs[fi.Decl.Recv.List[0].Names[0]]
+		ast.Inspect(fi.Decl.Body, func(n ast.Node) bool {
+			ifs, ok := n.(*ast.IfStmt)
+			if !ok {
+				return true
+			}
+			cond := unparen(ifs.Cond)
+			negated := false
+			if u, isNot := cond.(*ast.UnaryExpr); isNot && u.Op == token.NOT {
+				negated = true
+				cond = unparen(u.X)
+			}
+			call, isCall := cond.(*ast.CallExpr)
+			if !isCall {
+				return true
+			}
+			sel, isSel := unparen(call.Fun).(*ast.SelectorExpr)
+			if !isSel || sel.Sel.Name != "CompareAndSwap" {
+				return true
+			}
+			nCAS++
+			c.Analysed(fi)
+			key := fi.Name() + ":" + exprString(sel.X)
+			if negated {
+				c.Hold(r4, key, ifs.Pos(), "close-once idiom: the losers return, nothing is built")
+				return true
+			}
+			builds := false
+			ast.Inspect(ifs.Body, func(m ast.Node) bool {
+				mc, isC := m.(*ast.CallExpr)
+				if !isC {
+					return true
+				}
+				ms, isS := unparen(mc.Fun).(*ast.SelectorExpr)
+				if !isS || objOf(finfo, ms.X) != recv {
+					return true
+				}
+				if fn := Callee(finfo, mc); fn != nil && p.methodMayMutateReceiver(fn) {
+					builds = true
+				}
+				return true
+			})
+			c.Check(!builds, r4, key, ifs.Pos(), orStr(ifStr(builds, "shared state is built inside a CompareAndSwap gate: callers that lose the race continue without waiting and read the half-built state (use sync.Once or build under the lock)"),
+				"the gate does not build shared state"))
+			return true
+		})
+	}
+	c.Check(nCAS >= 2, r4, "module:compare-and-swap-gates", 0, itoa(nCAS)+" CompareAndSwap gates examined")
 }
 
 func isConstructorName(n string) bool {
